@@ -21,6 +21,8 @@ func main() {
 		switch os.Args[1] {
 		case "C10":
 			executorC10()
+		case "C12":
+			executorC12()
 		case "C13":
 			executorC13()
 		}
